@@ -2,7 +2,7 @@ SPECIFICATION MCSpec
 CONSTANTS
   RunIds = {1, 2, 3}
   Semantics = "pure"
-  ModelSet = {"conv_relu_argmax", "gru_squeeze", "lstm_state_init"}
+  ModelSet = {"conv_relu_argmax", "gru_squeeze", "lstm_state_init", "defaulted_bias"}
   Mode = "sched"
 INVARIANTS ConcurrentEqualsSequential NoConflict NoRunFails
 PROPERTY WeightsAndCallerTensorsImmutable
